@@ -796,6 +796,7 @@ func rulesC16(w *World, r *Report) {
 		}
 	}
 	r.floor("C16.R3 nameMap updates", nP, 3)
+	w.ruleListNamesKeepWhole(r, "C16.R9 list wire names keep the whole Go name", building, 2)
 	// R3 converse: every type recorded under a wire name has that wire name in
 	// the name map — a nameMap[_] = w with the same term w in the same function,
 	// written on every path that writes typMap[w] (same block, or a block that
